@@ -982,6 +982,8 @@ class Family:
             ("tuple", [("id", b.ident("t_id")), ("lit", b.string(), False)]),
             ("tuple", [("tuple", [("lit", b.integer(), False), ("lit", b.string(), False)]), ("lit", b.integer(), False)]),
             ("tuple", [("tuple", [("tuple", [("id", b.ident("deep_id"))])]), ("lit", b.string(), False)]),
+            ("tuple", [("tuple", [("lit", b.string(), False), ("lit", b.string(), False)]),       # a tuple of pairs (dict-able)
+                       ("tuple", [("lit", b.string(), False), ("lit", b.integer(), False)])]),
             ("tuple", [("lit", b.string(), False)]),                       # one-element tuple of a string (which may contain ',')
             ("tuple", [("tuple", [("lit", b.integer(), False), ("lit", b.integer(), False)])]),   # one-element tuple of a tuple
         ]
